@@ -326,6 +326,7 @@ func init() {
 			r.expectControl("Y4", "verifCtlTriangle2.Circumcenter")
 		}
 		checkInCircumcircle(ctx, r)
+		checkSuperTriangle(ctx, r)
 		r.floor("Y4", 3)
 		r.floor("Y5", 2)
 	}}
@@ -495,4 +496,88 @@ func checkInCircumcircle(ctx *Ctx, r *Report) {
 		okDone = equalRat(Sub(truthy.Args[0], truthy.Args[1]), Sub(sq(dx), r2))
 	}
 	r.check("Y5", "sdf.Triangle2.InCircumcircle|done", fn.Pos(), okDone, "done ≡ (p.x − c.x > 0) ∧ (p.x − c.x)² > r² (pruning is valid only for vertices sorted by x); term: "+shortKey(done.Key(), 200))
+}
+
+// ---------------------------------------------------------------- Y6: the super triangle
+
+// checkSuperTriangle: for two or more points the enclosing triangle is centred on the points'
+// bounding box and its size grows with the extent along BOTH axes (a scale taken from one
+// axis only is too small for point sets that are long in the other one: hull triangles are
+// lost). Decided on the closed form of superTriangle over the opaque VecSet.Min/Max.
+func checkSuperTriangle(ctx *Ctx, r *Report) {
+	fn := ctx.ssaFunc("render", "superTriangle")
+	if fn == nil {
+		r.undecided("Y6", "superTriangle", 0, "not found")
+		return
+	}
+	ev := newEval(ctx, "Min", "Max")
+	res, _ := ev.evalRoot(fn)
+	tup, _ := res.(*Tuple)
+	var tri *Agg
+	if tup != nil && len(tup.Elems) > 0 {
+		tri, _ = tup.Elems[0].(*Agg)
+	}
+	if tri == nil || len(tri.Elems) != 3 {
+		r.undecided("Y6", "superTriangle", fn.Pos(), "result is not a triangle in closed form")
+		return
+	}
+	general := map[string]bool{Cmp("==", A("len(vs)"), K(0)).Key(): false, Cmp("==", A("len(vs)"), K(1)).Key(): false}
+	coord := func(v, c int) *Term {
+		a, _ := tri.Elems[v].(*Agg)
+		if a == nil || c >= len(a.Elems) {
+			return nil
+		}
+		t, _ := a.Elems[c].(*Term)
+		if t == nil {
+			return nil
+		}
+		return assume(t, general)
+	}
+	var xs, ys [3]*Term
+	for v := 0; v < 3; v++ {
+		xs[v], ys[v] = coord(v, 0), coord(v, 1)
+		if xs[v] == nil || ys[v] == nil {
+			r.undecided("Y6", "superTriangle", fn.Pos(), "vertex coordinates are not scalar terms")
+			return
+		}
+	}
+	// extents: the atoms of the opaque Min/Max calls
+	var minX, maxX, minY, maxY string
+	all := map[string]bool{}
+	for v := 0; v < 3; v++ {
+		xs[v].Atoms(all)
+		ys[v].Atoms(all)
+	}
+	for a := range all {
+		switch {
+		case strings.Contains(a, ".Min(vs)") && strings.HasSuffix(a, ".X"):
+			minX = a
+		case strings.Contains(a, ".Max(vs)") && strings.HasSuffix(a, ".X"):
+			maxX = a
+		case strings.Contains(a, ".Min(vs)") && strings.HasSuffix(a, ".Y"):
+			minY = a
+		case strings.Contains(a, ".Max(vs)") && strings.HasSuffix(a, ".Y"):
+			maxY = a
+		}
+	}
+	if minX == "" || maxX == "" || minY == "" || maxY == "" {
+		r.check("Y6", "superTriangle|size-follows-both-extents", fn.Pos(), false, fmt.Sprintf("the triangle does not depend on all four bounds of the point set: minX=%q maxX=%q minY=%q maxY=%q", minX, maxX, minY, maxY))
+		return
+	}
+	// width and height of the triangle
+	w := Sub(xs[2], xs[0])
+	h := Sub(ys[1], ys[0])
+	ok := true
+	detail := ""
+	for _, a := range []struct {
+		name       string
+		t          *Term
+		atom, want string
+	}{{"width", w, maxX, "+"}, {"width", w, minX, "-"}, {"height", h, maxY, "+"}, {"height", h, minY, "-"}} {
+		if got := Polarity(a.t, a.atom); got != a.want {
+			ok = false
+			detail += fmt.Sprintf(" %s is %q in %s (expected %q);", a.name, got, shortKey(a.atom, 40), a.want)
+		}
+	}
+	r.check("Y6", "superTriangle|size-follows-both-extents", fn.Pos(), ok, "the width of the enclosing triangle grows with the extent of the points along x and its height with their extent along y;"+detail)
 }
